@@ -9,7 +9,7 @@ GNext ==
   \/ \E ok \in BOOLEAN : PwResolve(ok) /\ H([a |-> "PwResolve", ok |-> ok])
   \/ \E ok \in BOOLEAN : ReplyAuth(ok) /\ H([a |-> "ReplyAuth", ok |-> ok])
   \/ \E ok \in BOOLEAN : ReplyQuery(ok) /\ H([a |-> "ReplyQuery", ok |-> ok])
-  \/ \E k \in {"ok", "wronghash", "shorthash", "emptyhash", "longhash", "malformed", "err"} : ReplyChallenge(k) /\ H([a |-> "ReplyChallenge", k |-> k])
+  \/ \E k \in {"ok", "wronghash", "replay", "shorthash", "emptyhash", "longhash", "malformed", "err"} : ReplyChallenge(k) /\ H([a |-> "ReplyChallenge", k |-> k])
   \/ \E clean \in BOOLEAN : Disconnect(clean) /\ H([a |-> "Disconnect", clean |-> clean])
 GSpec == GInit /\ [][GNext]_<<vars, hist>>
 \* exhaustive generation: every complete behaviour (a leaf of the tree) is printed once
